@@ -48,6 +48,7 @@ def known_match(known, pid, sig):
 def _bounded_task(args):
     modname, idx, tier, seed = args
     try:
+        mp.current_process()._config["daemon"] = False     # bounded stand-ins may start worker processes themselves (C15)
         mod = importlib.import_module(modname)
         b = mod.BOUNDED[idx]
         t0 = time.time()
@@ -237,7 +238,8 @@ def main(argv=None):
         code = 1
     elif undecided:
         code = 2
-    if n_obl == 0 and not bsum:
+    n_trivial = sum(r.get("trivial", 0) for r in results if not r.get("crash"))
+    if n_obl + n_trivial == 0 and not bsum:
         crashes.append(("driver", "zero obligations generated"))
         code = 3
 
